@@ -174,6 +174,10 @@ func extract(repo string) error {
 	}
 	structLits := litsOf(sf, "buildStructLike")
 	svcLits := litsOf(sf, "buildService")
+	fnLits := litsOf(sf, "buildFunction")
+	if !fnLits["p"] || !fnLits["err"] || !fnLits["ctx"] || !fnLits["_result"] {
+		return fmt.Errorf("buildFunction: the reserved locals p/err/ctx/_result were not found")
+	}
 	if !structLits["Read"] || !structLits["Write"] || !structLits["String"] || !structLits["CountSetFields"] {
 		return fmt.Errorf("buildStructLike: the reserved method names Read/Write/String/CountSetFields were not found")
 	}
@@ -191,6 +195,7 @@ func extract(repo string) error {
 	sb.WriteString("/- GENERATED by harness/cmd/c01 extract from /repo. Do not edit. -/\nimport ThriftVerif.Core.VL\nnamespace Generated.C01\n\n")
 	fmt.Fprintf(&sb, "/-- buildStructLike reserves the methods the templates declare (InitDefault, CountSetFields<T>, field-mask accessors, ExtraStructMethods) -/\ndef reservesDeclaredMethods : Bool := %s\n\n", vl.LeanBool(structLits["InitDefault"]))
 	fmt.Fprintf(&sb, "/-- buildService reserves the accessor Client_ of the client template among the function names -/\ndef reservesClientAccessor : Bool := %s\n\n", vl.LeanBool(svcLits["Client_"]))
+	fmt.Fprintf(&sb, "/-- buildFunction reserves nil among the locals of a method -/\ndef reservesNil : Bool := %s\n\n", vl.LeanBool(fnLits["nil"]))
 	fmt.Fprintf(&sb, "/-- renderByTemplate drops the imports the rendered code does not mention (mentionsPackage) -/\ndef importsScanBody : Bool := %s\n\n", vl.LeanBool(scanBody))
 	list := func(doc, name string, xs []string) {
 		fmt.Fprintf(&sb, "/-- %s -/\ndef %s : List Bytes := [\n", doc, name)
